@@ -78,7 +78,62 @@ def write_into(I, out_ref, data):
             return io_err('Other')
         I.store_ref(out_ref, Agg('FailingWriter', (usize(budget - len(xs)), tgt.f[1])))
         return Ok(UNIT)
+    if isinstance(tgt, Agg) and (tgt.ty, 'write') in I.prog.methods:
+        # a crate type implementing io::Write: std's default write_all loop over the type's own `write`
+        f = [f_ for t_, f_ in I.prog.methods[(tgt.ty, 'write')] if (t_ or '').split('::')[-1].startswith('Write')][0]
+        s = as_slice(I, data)
+        done = 0
+        n = len(xs)
+        guard = 0
+        while done < n:
+            guard += 1
+            if guard > 64:
+                raise PathEnd('bound', 'write_all loop')
+            part = SliceRef(s.base, I.binop('Add', s.start, usize(done)), usize(n - done), s.is_str)
+            r = I.call_function(f, [out_ref, part], {})
+            if r.var == 'Err':
+                return r
+            k = I.ctx.concretize(r.f[0], limit=70000)
+            if k == 0:
+                return io_err('WriteZero')
+            done += k
+        return Ok(UNIT)
     raise Unsupported("io::Write on %r" % (tgt,))
+
+
+def write_some(I, out_ref, data):
+    """Write::write: number of bytes accepted (all for growable writers, what fits for fixed ones)"""
+    tgt = I.load_ref(out_ref)
+    if isinstance(tgt, Ref):
+        return write_some(I, tgt, data)
+    xs = I.seq_list(as_slice(I, data))
+    if isinstance(tgt, SliceRef):
+        cap = I.ctx.concretize(tgt.len, limit=70000)
+        amt = min(len(xs), cap)
+        s = as_slice(I, data)
+        write_into(I, out_ref, SliceRef(s.base, s.start, usize(amt), s.is_str))
+        return Ok(usize(amt))
+    if isinstance(tgt, CursorV):
+        inner = I.load_ref(tgt.inner) if isinstance(tgt.inner, Ref) else tgt.inner
+        if isinstance(inner, SliceRef):
+            cap = I.ctx.concretize(inner.len, limit=70000)
+            pos = min(I.ctx.concretize(tgt.pos, limit=70000), cap)
+            amt = min(len(xs), cap - pos)
+            s = as_slice(I, data)
+            write_into(I, out_ref, SliceRef(s.base, s.start, usize(amt), s.is_str))
+            return Ok(usize(amt))
+    r = write_into(I, out_ref, data)
+    if r.var == 'Err':
+        return r
+    return Ok(usize(len(xs)))
+
+
+@model(r'^<(.*) as (?:std::io::)?Write>::write$')
+def m_write(I, fr, callee, m, args):
+    tgt = I.load_ref(args[0])
+    if isinstance(tgt, Agg) and (tgt.ty, 'write') in I.prog.methods:
+        return NotImplemented
+    return write_some(I, args[0], args[1])
 
 
 @model(r'^<(.*) as (?:std::io::)?Write>::write_all$')
@@ -114,6 +169,18 @@ def cursor_len(I, c):
 
 @model(r'^<(.*) as (?:std::io::)?Seek>::(stream_position|seek|rewind)$')
 def m_seek(I, fr, callee, m, args):
+    tgt = I.load_ref(args[0])
+    while isinstance(tgt, Ref):
+        tgt = I.load_ref(tgt)
+    if isinstance(tgt, Agg) and (tgt.ty, 'seek') in I.prog.methods:
+        # a crate type implementing io::Seek: its own `seek`; std's defaults for the rest
+        if m.group(2) == 'seek':
+            return NotImplemented
+        f = [f_ for t_, f_ in I.prog.methods[(tgt.ty, 'seek')] if (t_ or '').split('::')[-1].startswith('Seek')][0]
+        if m.group(2) == 'stream_position':
+            return I.call_function(f, [args[0], En('SeekFrom', 'Current', (mk('i64', 0),))], {})
+        r = I.call_function(f, [args[0], En('SeekFrom', 'Start', (mk('u64', 0),))], {})
+        return r if r.var == 'Err' else Ok(UNIT)
     ref, c = cursor_of(I, args[0])
     op = m.group(2)
     if op == 'stream_position':
